@@ -448,6 +448,10 @@ def _rv_ppci(text):
         ops = list(ops) + [("s", "dyn")]
     if mn in ("c.addi", "c.slli", "c.srli", "c.srai", "c.andi") and kinds == "rri" and ops[0] == ops[1]:
         ops = [ops[0], ops[2]]  # printed with rd twice; the manual's form is rd, imm
+    if mn == "c.addi4spn" and kinds == "ri":  # manual: c.addi4spn rd', sp, nzuimm
+        ops = [ops[0], ("r", "x2"), ops[1]]
+    if mn == "c.addi16sp" and kinds == "i":  # manual: c.addi16sp sp, nzimm
+        ops = [("r", "x2"), ops[0]]
     return [(mn, tuple(ops))]
 
 
